@@ -360,4 +360,9 @@ def trace_calls(
         yield
     finally:
         sys.setprofile(old_trace)
-        logger.flush()
+        try:
+            logger.flush()
+        except Exception:
+            # Like a failure while collecting a trace, a failure to store the
+            # traces must not reach the traced program (or replace its exception).
+            logging.getLogger(__name__).exception("Failed flushing traces")
